@@ -1,9 +1,14 @@
 package el
 
 import (
+	"fmt"
 	"regexp"
 	"strings"
 )
+
+// MaxReplacements bounds the replacements performed on one text, so that values which refer to
+// themselves (directly, in a cycle, or by growing) end in an error instead of an endless loop.
+const MaxReplacements = 1000
 
 type Helper interface {
 	MatchString(s string) bool
@@ -37,10 +42,13 @@ func (e *elHelper) content(elr string) string {
 
 func (e *elHelper) ReplaceAllContent(s string, f func(content string) (string, error)) (string, error) {
 	var result = s
-	for true {
+	for n := 0; ; n++ {
 		elr := e.FindString(result)
 		if elr == "" {
 			break
+		}
+		if n >= MaxReplacements {
+			return "", fmt.Errorf("'%s' is not resolved after %d replacements: circular reference?", s, MaxReplacements)
 		}
 		r, err := f(e.content(elr))
 		if err != nil {
